@@ -292,7 +292,7 @@ pub fn raw_scenario(case: &RawCase, which_reply: usize, cuts: &[usize], req_cut:
     }
 }
 
-fn after_login(log: &[crate::mockpg::Entry], c: usize) -> Vec<Msg> {
+pub fn after_login(log: &[crate::mockpg::Entry], c: usize) -> Vec<Msg> {
     // client-received messages after the first ReadyForQuery (end of startup)
     let mut seen_z = false;
     let mut out = Vec::new();
@@ -308,7 +308,7 @@ fn after_login(log: &[crate::mockpg::Entry], c: usize) -> Vec<Msg> {
     out
 }
 
-fn client_sent_msgs(log: &[crate::mockpg::Entry], c: usize) -> Vec<Msg> {
+pub fn client_sent_msgs(log: &[crate::mockpg::Entry], c: usize) -> Vec<Msg> {
     // typed messages the client sent after startup/password
     let mut bytes = Vec::new();
     let mut n = 0;
@@ -391,7 +391,7 @@ pub const REF_PROGRAMS: &[&str] = &[
     "simple", "ext", "named", "pipelined", "bare-sync-then-batch", "sync-between", "describe", "close-reparse", "flush-wait", "big", "txn-ext", "copy", "error-in-batch",
 ];
 
-fn norm(m: &Msg) -> Msg {
+pub fn norm(m: &Msg) -> Msg {
     // the backend connection id echoed in rows is not part of the comparison
     if m.code == b'D' {
         let cols = m.row_cols();
